@@ -419,8 +419,11 @@ class Interp:
         fr = Frame(clo.frame, names)
         for p, a in zip(clo.params, args):
             fr.vars[p] = a
+        # parameters and function-local assignments shadow enclosing let bindings of the same name
+        # (api.rst on let: "arguments in nested functions ... can shadow these names")
+        lets = {k: c for k, c in clo.lets.items() if k not in names}
         try:
-            return self.eval((fr, clo.lets), clo.body)
+            return self.eval((fr, lets), clo.body)
         except _Return as r:
             return r.v
 
